@@ -552,3 +552,97 @@ func trunc(s string, n int) string {
 	}
 	return s[:n] + "..."
 }
+
+// ---------------------------------------------------------------- diagnosis of a mismatch position
+
+// Silent counts the defers that were completed without any incremental item and without errors.
+func Silent(s *Stream) (silent, failed int) {
+	for i, f := range s.Frames {
+		if i == 0 || f.ParseErr != "" {
+			continue
+		}
+		for _, c := range f.Completed {
+			if c.Errors {
+				failed++
+				continue
+			}
+			has := false
+			for _, in := range f.Incr {
+				if in.ID == c.ID {
+					has = true
+				}
+			}
+			if !has {
+				silent++
+			}
+		}
+	}
+	return
+}
+
+// DiagnosePosition classifies the position "/a/0/b/..." of a reconstruction mismatch against the
+// supergraph: "nested-list" when a field on the way is a list of lists (the pass-through seek of
+// the renderer does not enter nested lists); "typed-list" when, before the first list field, a
+// field is not defined on the static type of its parent (it was selected under a type condition
+// on an abstract type: deferInfoCollector.outermostListFieldIndex gives up and the descriptor
+// path is not cut at the list); "" otherwise.
+func DiagnosePosition(sch *fl.Schema, pos string) string {
+	var names []string
+	for _, p := range strings.Split(strings.Trim(pos, "/"), "/") {
+		if p == "" {
+			continue
+		}
+		if _, err := strconv.Atoi(p); err == nil {
+			continue
+		}
+		names = append(names, p)
+	}
+	// the static type of a position is not unique under type conditions: try every possible type
+	type state struct {
+		typ     string
+		unknown bool // a field on the way was not defined on the static parent type
+	}
+	cur := []state{{typ: sch.Query}}
+	sawList := false
+	result := ""
+	for _, n := range names {
+		var next []state
+		for _, st := range cur {
+			td := sch.Type(st.typ)
+			if td == nil {
+				continue
+			}
+			if fd := td.Field(n); fd != nil {
+				if fd.Type.IsList() {
+					if fd.Type.Nullable().Of.IsList() {
+						result = "nested-list"
+					}
+					if st.unknown && !sawList && result == "" {
+						result = "typed-list"
+					}
+					sawList = true
+				}
+				next = append(next, state{typ: fd.Type.Base(), unknown: st.unknown})
+				continue
+			}
+			// not on the static type: look at the possible types
+			for _, pt := range sch.PossibleTypes(st.typ) {
+				if ptd := sch.Type(pt); ptd != nil {
+					if fd := ptd.Field(n); fd != nil {
+						if fd.Type.IsList() {
+							if fd.Type.Nullable().Of.IsList() {
+								result = "nested-list"
+							} else if !sawList && result == "" {
+								result = "typed-list"
+							}
+							sawList = true
+						}
+						next = append(next, state{typ: fd.Type.Base(), unknown: true})
+					}
+				}
+			}
+		}
+		cur = next
+	}
+	return result
+}
